@@ -254,6 +254,7 @@ class RefExpander:
                 return out
             if t == "@macro":
                 self.define()
+                out.append("\n")        # a definition is a statement of its own: what follows it does not continue what preceded it
             else:
                 out.append(t)
 
